@@ -26,6 +26,9 @@ CHECKS["C05"] = ("model_checking", "E2", "explicit-state breadth-first search ov
 CHECKS["C06"] = ("exploration", "E1", "bounded exhaustive enumeration of producing calls (union driver over the other checks' universes) with a deep well-formedness walk as the only oracle",
   "Every value returned by every constructor call on generated arguments and by the operation, refinement, conversion, function, decoder and traversal calls of the other checks' quick universes is walked with every applicable public accessor: payloads match declared types, tuple/object shapes match, strings/names/keys are NFC, sets hold no marked or duplicate member, at most one mark layer, no optional-attribute annotation survives.",
   "trusted: the accessor walk; coverage is the union of the quick universes of C01, C05, C08, C11, C15-C17, C19", "§3 C06")
+CHECKS["C08"] = ("exploration", "E1", "bounded exhaustive enumeration of (value, target type) pairs with derived targets; multi-run relational oracle (conformance, identity, idempotence, round trip, abstraction via admits)",
+  "For every source type of the structural core, every value (known, nulls at every depth, every one-position weakening to a refined unknown, marked) and every target (unrelated, or derived by kind change, element conversion, dropped/added/optional attributes, inserted placeholders): Convert / GetConversion / GetConversionUnsafe never panic; a success conforms to the target, carries no optional annotation and no placeholder the input resolved, is the identity on values of the target type, is idempotent, round-trips through the inverse when the forward conversion is safe, maps unknown/null to unknown/null whose refinements admit the conversion of every admitted input; safe implies unsafe and never fails for placeholder-free targets.",
+  "trusted: TS model, admits(), semEq (RawEquals up to representation of unrefined unknowns); bound: structural core types depth<=2, <=16 values per type, one weakened position", "§3 C08")
 NOT_YET = {}
 props = [json.loads(l) for l in open('/verif/properties.jsonl')]
 checks = []
